@@ -2,7 +2,9 @@
 From Coq.Strings Require Import Byte String.
 From Coq Require Import List Arith NArith Bool.
 Import ListNotations.
-From V Require Import lib.Bytes lib.Sexp model.Fmt model.FmtReasons.
+From V Require Import lib.Bytes lib.Sexp model.Fmt model.FmtReasons spec.FmtSpec.
+From V Require model.Ast spec.Denote.
+From V Require Import spec.FmtEmbed.
 Require Extraction.
 Require Import ExtrOcamlBasic.
 
@@ -18,6 +20,33 @@ Definition dispatch (f : bytes) (a : list bytes) : list bytes :=
                              [bs "ok"; fmt_write fl; fmt_write f2; fmt_write (reparse f2); unstable_reasons fl]
                 | None => [bs "decode-ast"] end
     | None => [bs "decode-sexp"] end
+  else if isf f "embed" then
+    (* args: formatter wire and generator wire of the SAME top-level node of a parsed file (one request per node: the
+       wire parser is quadratic in the message length).
+       reply: embed agrees exactly (positions aside); agrees with expression texts compared without white space *)
+    match parse_all (arg 0 a), parse_all (arg 1 a) with
+    | Some x, Some y =>
+        match dfnode x, Ast.dfnode y with
+        | Some fl, Some af =>
+            let e := embed_fnode fl in
+            if fnode_agrees false false e af then [bs "ok"; b2 true; b2 true]
+            else [bs "ok"; b2 false; b2 (fnode_agrees true false e af)]
+        | _, _ => [bs "decode-ast"] end
+    | _, _ => [bs "decode-sexp"] end
+  else if isf f "reparsed" then
+    (* args: formatter wire of a top-level node of the original file; generator wire of the same node of parse(format(original)).
+       reply: embed (reparse_ws original) agrees with the real re-parsed tree (expressions without white space; Whitespace
+       nodes as the renderer reads them); the three guards; reasons (when it does not agree) *)
+    match parse_all (arg 0 a), parse_all (arg 1 a) with
+    | Some x, Some y =>
+        match dfnode x, Ast.dfnode y with
+        | Some fl, Some af =>
+            let one := {| f_header := []; f_pkg := []; f_nodes := [fl] |} in
+            let ok := match Ast.f_nodes (embed (reparse_ws one)) with [r] => fnode_agrees true true r af | _ => false end in
+            [bs "ok"; b2 ok; b2 (trailing_semantics_preserved one); b2 (parser_shaped one); b2 (shallow one);
+             (if ok then [] else unstable_reasons one)]
+        | _, _ => [bs "decode-ast"] end
+    | _, _ => [bs "decode-sexp"] end
   else [bs "?"].
 
 Extraction "model.ml" dispatch.
